@@ -11,6 +11,7 @@ import Driver.C16
 import Driver.C15
 import Driver.C06
 import Driver.C13
+import Driver.C11
 open Driver
 
 def handle (line : String) : String :=
@@ -31,6 +32,8 @@ def handle (line : String) : String :=
   | "c15" :: args => c15 args
   | "c06" :: args => c06 args
   | "c13" :: args => c13 args
+  | "c11" :: args => c11 args
+  | "c11s" :: args => c11s args
   | _ => "bad-op"
 
 partial def loop (h : IO.FS.Stream) (out : IO.FS.Stream) : IO Unit := do
